@@ -265,10 +265,15 @@ def find_target(target):
         raise ExtractError(f"{target}: not found")
     for name in rest:
         inner = None
-        for n in ast.walk(fn):
-            if isinstance(n, ast.FunctionDef) and n.name == name and n is not fn:
-                inner = n
-                break
+        # 'name@k': the k-th (source order, 0-based) nested definition of that name (branches that each define it)
+        ordinal = 0
+        if "@" in name:
+            name, o = name.split("@")
+            ordinal = int(o)
+        cands = sorted((n for n in ast.walk(fn) if isinstance(n, ast.FunctionDef) and n.name == name and n is not fn),
+                       key=lambda n: n.lineno)
+        if ordinal < len(cands):
+            inner = cands[ordinal]
         if inner is None:
             raise ExtractError(f"{target}: nested function {name} not found")
         enclosing.append(fn)
